@@ -56,12 +56,17 @@ pub mod common {
     }
 
     pub fn observe_cg_call(id: &str, iface: &str, mi: usize, present: &[bool], wire: &Wire, st: &mut Stats) {
+        observe_cg_call_at(id, iface, mi, present, wire, 0, st)
+    }
+
+    /// `behind`: the number of calls the chain holds in front of the one observed (the chain-extending form)
+    pub fn observe_cg_call_at(id: &str, iface: &str, mi: usize, present: &[bool], wire: &Wire, behind: usize, st: &mut Stats) {
         st.calls += 1;
         let a: Value = serde_json::from_str(iface).unwrap();
         let (frames, _complete) = split_frames(&wire.borrow().out);
-        let mut e = json!({"ev":"cg_call","id":id,"iface":a,"mi":mi,"present":present,"frames":frames.len(),"method":"","has_params":false,
+        let mut e = json!({"ev":"cg_call","id":id,"iface":a,"mi":mi,"present":present,"frames":frames.len().saturating_sub(behind),"method":"","has_params":false,
                            "params":jrec(&Value::Null),"more":false,"oneway":false,"extra":[],"raw":""});
-        if let Some(f) = frames.first() {
+        if let Some(f) = frames.get(behind) {
             e["raw"] = json!(String::from_utf8_lossy(f));
             if let Ok(Value::Object(m)) = serde_json::from_slice::<Value>(f) {
                 e["method"] = m.get("method").cloned().unwrap_or(json!(""));
